@@ -87,6 +87,20 @@ fn compare_graph(w: &World, g: &Graph) -> Vec<String> {
     d
 }
 
+/// the network the files are regenerated from: other sizes, same paths and compression as `w`
+fn reload_world(w: &World, seed: u64) -> World {
+    let mut r = Rng::new(seed ^ fnv64("C15-reload"));
+    let gp = GraphParams { nv: (1, 40), extra_edge_factor: 2.0, ..Default::default() };
+    let mut w2 = World::gen_graph(&mut r, &gp);
+    w2.gz_edges = w.gz_edges;
+    w2.gz_vertices = w.gz_vertices;
+    w2.gz_tables = w.gz_tables;
+    w2.gz_misnamed = w.gz_misnamed;
+    w2.text_variant = w.text_variant;
+    w2.explicit_counts = w.explicit_counts;
+    w2
+}
+
 pub const ENUM_KINDS: [(&str, u64); 7] = [("short_read", 1), ("eintr_read", 0), ("eio_read", 0), ("eio_read", 1), ("short_read", 3), ("bitflip_read", 5), ("bitflip_read", 70)];
 pub const ENUM_GROUP: u64 = 224; // 32 read positions x 7 fault kinds per world
 
@@ -409,7 +423,7 @@ impl Check for C15 {
     }
     fn default_runs(&self, tier: Tier) -> u64 {
         match tier {
-            Tier::Quick => 16000,
+            Tier::Quick => 33000,
             Tier::Thorough => 600000,
         }
     }
@@ -467,7 +481,10 @@ impl Check for C15 {
             _ => {}
         }
         simcfg.max_steps = 400_000;
-        Case { check: "C15".into(), seed, family: family.to_string(), world: w, batches: vec![], workers: 1, run_parallelism: None, simcfg, recorded: None, params: Value::Null }
+        // a history, not just one load: the files are regenerated at the same paths (another network of
+        // another size) and loaded again in the same process
+        let params = if r.chance(0.35) { json!({"reload_seed": r.next_u64() >> 12}) } else { Value::Null };
+        Case { check: "C15".into(), seed, family: family.to_string(), world: w, batches: vec![], workers: 1, run_parallelism: None, simcfg, recorded: None, params }
     }
     fn run(&self, case: &Case, fatal_fd: i32) -> ChildResult {
         if case.family.starts_with("app-") {
@@ -495,7 +512,33 @@ impl Check for C15 {
                 }
                 Err(e) => json!({"error": e.to_string()}),
             };
-            json!({"graph": graph_diffs, "speeds": speed_diffs})
+            let mut res = json!({"graph": graph_diffs, "speeds": speed_diffs});
+            if let Some(rs) = case.params.get("reload_seed").and_then(|x| x.as_u64()) {
+                let w2 = reload_world(w, rs);
+                sim::with(|s| {
+                    for (p, d) in w2.files() {
+                        s.put_file(&p, d);
+                    }
+                });
+                let cfg2 = w2.config(false);
+                sim::set_quiet(false);
+                let g2 = DefaultGraphBuilder::build(&cfg2["graph"]);
+                let sp2 = SpeedTraversalEngine::new(&w2.table_path_pub("speeds"), SpeedUnit::KilometersPerHour, None, None);
+                sim::set_quiet(true);
+                res["graph2"] = match &g2 {
+                    Ok(g) => json!(compare_graph(&w2, g)),
+                    Err(e) => json!({"error": e.to_string()}),
+                };
+                res["speeds2"] = match &sp2 {
+                    Ok(e) => {
+                        let got: Vec<f64> = e.speed_table.iter().map(|s| s.as_f64()).collect();
+                        if got == w2.speeds { json!([]) } else { json!([format!("speed table has {} rows but the regenerated file lists {}", got.len(), w2.speeds.len())]) }
+                    }
+                    Err(e) => json!({"error": e.to_string()}),
+                };
+                res["ne2"] = json!(w2.ne());
+            }
+            res
         });
         let mut v = vec![];
         let mut reach: BTreeMap<String, u64> = BTreeMap::new();
@@ -506,8 +549,17 @@ impl Check for C15 {
         let eintr_fired: u64 = out.stats.faults.get("eintr_read").copied().unwrap_or(0);
         let empty_ok = case.world.ne() == 0; // a speed table with no rows is rejected by design ("parsed 0 entries")
         if let Some(val) = &out.value {
-            for part in ["graph", "speeds"] {
-                let x = &val[part];
+            let reloaded = val.get("graph2").is_some();
+            if reloaded {
+                *reach.entry("reloaded_after_regeneration".into()).or_insert(0) += 1;
+            }
+            for part_key in ["graph", "speeds", "graph2", "speeds2"] {
+                if !reloaded && part_key.ends_with('2') {
+                    continue;
+                }
+                let part = part_key.trim_end_matches('2');
+                let empty_ok = if part_key.ends_with('2') { val["ne2"].as_u64() == Some(0) } else { empty_ok };
+                let x = &val[part_key];
                 if let Some(e) = x.get("error") {
                     if hard_fired > 0 {
                         *reach.entry("load_failed_after_hard_fault".into()).or_insert(0) += 1;
@@ -527,7 +579,7 @@ impl Check for C15 {
                 } else if let Some(diffs) = x.as_array() {
                     if !diffs.is_empty() {
                         let class = if hard_fired > 0 { format!("{}-silently-different-after-hard-fault", part) } else { format!("{}-differs", part) };
-                        v.push(Violation { class, detail: format!("{:?}", diffs) });
+                        v.push(Violation { class, detail: format!("{}{:?}", if part_key.ends_with('2') { "[second load, after the files were regenerated at the same paths] " } else { "" }, diffs) });
                     } else if hard_fired > 0 {
                         *reach.entry("exact_despite_hard_fault".into()).or_insert(0) += 1;
                     }
